@@ -1584,3 +1584,11 @@ func writesNothing(fn *ssa.Function, depth int) bool {
 	}
 	return true
 }
+
+// IsNewFunc: the pinned tree has no function of that name (and fn is not a renamed one).
+func (m *Model) IsNewFunc(fn *ssa.Function) bool {
+	if fn == nil || fn.Parent() != nil || fn.Object() == nil || m.Cfg.newNames == nil {
+		return false
+	}
+	return m.Cfg.newNames[m.rawName(fn)] || m.CoreOf(fn) != ""
+}
